@@ -255,6 +255,16 @@ def rule_refused_request_is_released(ctx, rule='C10.e'):
 
 
 
+
+def rule_cancel_always_cancels(ctx):
+    """(shared C09.a)  cancel() of a pending interaction sends its CANCEL and closes the cancelled direction on every
+    path: a cancel that returns early on some state of the handler leaves the stream registered at both ends for the
+    life of the connection (rules/c09.py)."""
+    from .c09 import rule_a as c09a
+    c09a(ctx)
+
+
+
 def _emits(m, h, p, cname):
     return any(c == cname and m.emit_class(h, c, cm) for c, cm, _ in m.emitted(p))
 
@@ -453,4 +463,4 @@ def rule_reactions(ctx):
     c01f(ctx)
 
 
-RULES = [('C10.a', rule_a), ('C10.b', rule_b), ('C10.c', rule_c), ('C05.a', rule_order), ('C03.c', rule_d), ('C10.d', rule_e), ('C10.a', rule_no_subscriber), ('C06.e', rule_small_publishers), ('C01.h', rule_adapter_cancellation), ('C05.b', rule_queue_only_drained_by_the_sender), ('C01.f', rule_reactions), ('C13.j', rule_release_needs_terminal), ('C10.e', rule_refused_request_is_released)]
+RULES = [('C10.a', rule_a), ('C10.b', rule_b), ('C10.c', rule_c), ('C05.a', rule_order), ('C03.c', rule_d), ('C10.d', rule_e), ('C10.a', rule_no_subscriber), ('C06.e', rule_small_publishers), ('C01.h', rule_adapter_cancellation), ('C05.b', rule_queue_only_drained_by_the_sender), ('C01.f', rule_reactions), ('C13.j', rule_release_needs_terminal), ('C10.e', rule_refused_request_is_released), ('C09.a', rule_cancel_always_cancels)]
